@@ -160,6 +160,7 @@ PBT_PROPERTY(sweep32_sample) {
         one32((uint32_t)((s << 8) | (h & 0xFF)));          // every 256-block of the value range
         one32((uint32_t)(((h >> 8) & 0xFF) << 24 | s));    // every pattern of the low 24 bits
     }
+    pbt::count(2 * (hi - lo)); // 32-bit values checked (each against every 32-bit helper)
     pbt::label("chunk");
     pbt::nontrivial();
     PBT_LOG("sweep32_sample strata [" << lo << ", " << hi << ") of 2^24\n");
@@ -172,6 +173,7 @@ PBT_PROPERTY(sweep32_full) {
     // 128-bit intermediate: N * idx may exceed 64 bits only for absurd chunk counts, but be exact anyway
     uint64_t lo = (uint64_t)((unsigned __int128)N * idx / total), hi = (uint64_t)((unsigned __int128)N * (idx + 1) / total);
     for (uint64_t v = lo; v < hi; ++v) one32((uint32_t)v);
+    pbt::count(hi - lo);
     pbt::label("chunk");
     pbt::nontrivial();
     PBT_LOG("sweep32_full values [" << lo << ", " << hi << ")\n");
